@@ -24,7 +24,8 @@ def num_spellings(rng):
                 k = rng.randrange(1, len(d))
                 out.append(sign + d[:k] + '_' + d[k:])
                 out.append(sign + d + '_')
-    out += ['0x', '0b', '0o', '0o8', '0o1_7', '0O17', '0o1.5', '0b2', '0xg', '09', '0a', '1a', '1_', '_1', '1__2', '0x-5', '0x+5', '-0x-5', '0b-1', '--1', '+-1', '-', '+',
+    out += ['1x5', '7b1', '-3o7', '9xff', '1x', '9b2', '1x.5', '2b', '+5x1', '10x10', '1o7', '00x1', '0x0x1', '0b0b1',
+            '0x', '0b', '0o', '0o8', '0o1_7', '0O17', '0o1.5', '0b2', '0xg', '09', '0a', '1a', '1_', '_1', '1__2', '0x-5', '0x+5', '-0x-5', '0b-1', '--1', '+-1', '-', '+',
             '1.', '1.5', '-1.5', '+0.25', '1.5e3', '1.e5', '1.5e', '1.5.2', '0x1.5', '0b1.1', '1_0.5', '0.1_5', '1e5', '1.5E-3', '01.5',
             '00.5', '1.\uff15', '1.5x', '1.inf', '9' * 400 + '.0', '1.' + '0' * 50 + '1', '123456789012345678901234567890.5', '4.9e-324', '2.2250738585072011e-308',
             '1.7976931348623159e308', '0.1', '0.3', '1.0000000000000002', '9007199254740993.0']
@@ -78,6 +79,9 @@ class C16(Prop):
     def known(self, line, impl, spec):
         if 'printread' in line and 'G(I-' in line and 'S23666d74' in line:
             return self.D21
+        import re as _re
+        if _re.search(r"text: '[+-]?0[xbo][+-]", line):
+            return self.D21      # a sign after the radix prefix is accepted (second half of the recorded finding)
         return None
 
     def known_case(self, case):
@@ -89,6 +93,42 @@ class C16(Prop):
     def classify(self, line):
         return ' '.join(line.split(' ')[:2])
 
+    @staticmethod
+    def ref_numeric(tok):
+        """what a numeric-looking token (first character a digit, or a sign followed by a digit) denotes, written independently of
+        the lexer: 'I<hex>' for an integer in range, 'real' for a text with a dot and no radix marker, 'err' otherwise.
+        Rules of the language: `_` may separate digits; `0x` `0b` `0o` (after the optional sign) select radix 16 / 2 / 8; a leading
+        `0` without marker means radix 16 (pinned by the suite: `0f` is 15); everything else is decimal; range = i128."""
+        t = tok
+        neg = t.startswith('-')
+        body = t[1:] if t[:1] in '+-' else t
+        if not body or not body[0].isdigit() or not body.isascii():
+            return None
+        marker = None
+        if body[0] == '0' and len(body) > 1 and body[1] in 'xbo':
+            marker = {'x': 16, 'b': 2, 'o': 8}[body[1]]
+            digits = body[2:]
+        else:
+            digits = body
+        digits = digits.replace('_', '')
+        if '.' in digits:
+            return 'err' if marker else 'real'
+        radix = marker or (16 if body[0] == '0' else 10)
+        if marker is None and body[0] == '0':
+            digits = digits       # the leading zero is itself a digit
+        if not digits:
+            return 'err'
+        alphabet = '0123456789abcdefghijklmnopqrstuvwxyz'[:radix]
+        v = 0
+        for ch in digits.lower():
+            if ch not in alphabet:
+                return 'err'
+            v = v * radix + alphabet.index(ch)
+        v = -v if neg else v
+        if not (-(1 << 127) <= v < (1 << 127)):
+            return 'err'
+        return 'I' + ('-%x' % -v if v < 0 else '%x' % v)
+
     def group_check(self, cases, impl):
         """block comments, on the implementation alone: a text that starts with `\\(` + whitespace is one comment up to the first
         `\\)` that stands between whitespace (or before the end of the text), the whitespace after it included; what follows is
@@ -97,6 +137,20 @@ class C16(Prop):
         fails, n = [], 0
         WSP = ' \t\n\r\x0c'
         for c, o in zip(cases, impl):
+            if c in getattr(self, 'num_texts', {}):
+                n += 1
+                want = self.ref_numeric(self.num_texts[c])
+                first = o.split(' ')[0] if o else ''
+                kind = first.split(':')[0]
+                got = kind[1:] if kind.startswith('LI') else ('real' if kind.startswith('LR') else ('err' if kind.startswith('E') else kind))
+                if kind.startswith('LI'):
+                    got = 'I' + kind[2:]
+                if want == 'real' and got in ('real', 'err'):
+                    continue      # whether the text is a valid real is the decimal->double oracle's business
+                if want is not None and got != want:
+                    fails.append(('case: %s\ntext: %r\ntokens: %s\nexpected: %s' % (c, self.num_texts[c], o, want),
+                                  'a numeric text is not read as what it writes (or is accepted although malformed)'))
+                continue
             if c in getattr(self, 'word_texts', {}):
                 n += 1
                 want = ['W' + w.encode('utf-8').hex() for w in self.word_texts[c]]
@@ -175,6 +229,11 @@ class C16(Prop):
             if h not in seen:
                 seen.add(h)
                 cs.append('lex all %s' % h)
+        self.num_texts = {}
+        for p in num_spellings(rng):
+            if p and p.isascii() and self.ref_numeric(p) is not None:
+                h = p.encode('utf-8').hex()
+                self.num_texts['lex all %s' % h] = p
         for p in pool:
             add(p)
             add(p + ' ')
